@@ -15,7 +15,7 @@ def cases_for(cfg):
     return cases
 
 
-CFGS = (2, 3, 1, 0)
+CFGS = (2, 3, 1, 0, 7, 8)
 PROPERTY = Property(
     'C03',
     [Harness('c03_primary_b%d' % c, UNITS[c], 'harness/c03_primary.c', cases_for(c), unwind=24, timeout=600,
@@ -25,7 +25,7 @@ PROPERTY = Property(
     functions=['server::handle_read_by_group_type_request', 'details::collect_primary_services', 'service::read_primary_service_response',
                'server::handle_find_by_type_value_request', 'server::all_services_by_group', 'details::services_by_group', 'details::value_filter',
                'details::collect_find_by_type_groups', 'generate_attribute<service_defintion_tag>::access', 'details::handle_index_mapping'],
-    bounds='server declarations B3, B4 (primary and secondary services mixed, with and without fixed handles), B2, B1; every (start,end) pair; every UUID value of 2 and 16 bytes',
+    bounds='server declarations B3, B4 (primary and secondary services mixed, with and without fixed handles), B2, B1, B8 (a secondary service between two primary services of the same UUID width); every (start,end) pair; every UUID value of 2 and 16 bytes',
     assumptions=['a response may contain fewer services than would fit (ATT latitude); no declared primary service may be omitted before or between reported ones'],
     explanation='the real l2cap_input answers one Discover All Primary Services / Discover Primary Service By UUID request whose handle range and UUID value are solver variables; '
                 'the response is compared with the primary service rows (handle, true group end, UUID) of a hand-written attribute table per declaration: Attribute Not Found iff '
